@@ -10,6 +10,7 @@ import (
 	"fmt"
 	"os"
 	"strings"
+	"time"
 )
 
 // A suite generates case inputs (one line each) and runs the real code on one input,
@@ -20,6 +21,12 @@ type suite struct {
 }
 
 var suites = map[string]suite{}
+
+// a single case may take at most this long (the evaluator's own deadline is 5 s)
+const caseTimeout = 40 * time.Second
+
+// arguments after the suite name
+var suiteArgs []string
 
 type out struct {
 	w *bufio.Writer
@@ -72,6 +79,7 @@ func main() {
 	tier := flag.String("tier", "quick", "quick|thorough")
 	seed := flag.Uint64("seed", 1, "PRNG seed")
 	outPath := flag.String("out", "", "output file (default stdout)")
+	genOnlyFlag := flag.Bool("genonly", false, "only generate the inputs, do not run them")
 	inputsFlag := flag.String("inputs", "", "run only the inputs listed in this file (replay / corpus mode)")
 	flag.Parse()
 	if flag.NArg() < 1 {
@@ -79,6 +87,7 @@ func main() {
 		os.Exit(2)
 	}
 	name := flag.Arg(0)
+	suiteArgs = flag.Args()[1:]
 	su, ok := suites[name]
 	if !ok {
 		fmt.Fprintln(os.Stderr, "unknown suite", flag.Arg(0))
@@ -95,7 +104,26 @@ func main() {
 		defer f.Close()
 	}
 	o := &out{w: bufio.NewWriterSize(f, 1<<20)}
-	runOne := func(in string) { o.emit(in, safeRun(su, in)) }
+	genOnly := *genOnlyFlag
+	runOne := func(in string) {
+		if genOnly {
+			o.emit(in, "")
+			return
+		}
+		// watchdog: the code under test may loop without polling its context; a goroutine cannot be
+		// killed, so report the hang as this case's observation and stop the run.
+		done := make(chan string, 1)
+		go func() { done <- safeRun(su, in) }()
+		select {
+		case obs := <-done:
+			o.emit(in, obs)
+		case <-time.After(caseTimeout):
+			o.emit(in, "HANG")
+			o.w.Flush()
+			fmt.Fprintf(os.Stderr, "harness: case did not return within %v: %s\n", caseTimeout, in)
+			os.Exit(3)
+		}
+	}
 	if *inputsFlag != "" {
 		readInputs(*inputsFlag, runOne)
 	} else {
